@@ -125,9 +125,15 @@ impl TraceLenSummary {
             .max(self.chiplets_trace_len.trace_len())
     }
 
+    /// Returns the number of rows the components need before padding: the executed operations are
+    /// always followed by at least one HALT row.
+    fn unpadded_trace_len(&self) -> usize {
+        self.trace_len().max(self.main_trace_len + 1)
+    }
+
     /// Returns `trace_len` rounded up to the next power of two.
     pub fn padded_trace_len(&self) -> usize {
-        (self.trace_len() + NUM_RAND_ROWS).next_power_of_two()
+        (self.unpadded_trace_len() + NUM_RAND_ROWS).next_power_of_two()
     }
 
     /// Returns the percent (0 - 100) of the steps that were added to the trace to pad it to the
